@@ -579,7 +579,8 @@ func (w *world) sessReq(s *scall, seq uint64, r reqSpec) {
 	w.afterOp()
 	// C20 clauses on the epoch, straight from the property text
 	if had && !s.isGated() && r.req != nil && r.req.GetInit() == nil && r.req.GetBody() != nil {
-		good := r.mi == nil || (r.mi.kind == "good")
+		// "good" = the request passes the authenticity checks (those come before the epoch test)
+		good := r.mi == nil || (r.mi.ver && r.mi.from == s.src)
 		if seq > ep && good && !s.isDone() {
 			w.fail("C20", "future-epoch-not-rejected", fmt.Sprintf("request with session seqno %d > relay epoch %d did not end the call", seq, ep))
 		}
